@@ -15,6 +15,7 @@ package main
 import (
 	"fmt"
 	"math/rand/v2"
+	"strconv"
 
 	"go.sia.tech/core/types"
 	"verif/internal/chaingen"
@@ -153,11 +154,24 @@ func main() {
 		Assume: []string{"blake2b from x/crypto and the element hashes from the public types.Hasher are the trusted primitives", "the store applies updates in order, as the statement requires"},
 		Batches: func(t string) int {
 			if t == "quick" {
-				return 16
+				return 17
 			}
-			return 64
+			return 66
+		},
+		// the last batches run the fabricated high-leaf-count cases from a GOARCH=386 build: slice indices and the
+		// shifts derived from them are 32 bits wide there
+		Arch386Batches: func(t string) []int {
+			if t == "quick" {
+				return []int{16}
+			}
+			return []int{64, 65}
 		},
 		Run: func(b *harness.B) {
+			if strconv.IntSize == 32 {
+				b.Count("high_bit_batches_run_with_32_bit_int", 1)
+				runHighBits(b)
+				return
+			}
 			if b.Batch == 0 {
 				runShapes(b)
 				return
@@ -169,7 +183,7 @@ func main() {
 		},
 		MinEvals:    500,
 		MinDistinct: 100,
-		Require:     []string{"blocks_applied", "blocks_reverted", "store_elements_verified", "forest_root_comparisons", "spent_elements_verified", "tree_nodes_row0_checked", "shape_cases", "high_bit_cases"},
+		Require:     []string{"blocks_applied", "blocks_reverted", "store_elements_verified", "forest_root_comparisons", "spent_elements_verified", "tree_nodes_row0_checked", "shape_cases", "high_bit_cases", "high_bit_batches_run_with_32_bit_int"},
 		Extra: func(m *harness.Result, cov map[string]any) {
 			cov["exhaustive_subspace"] = "shape enumerator: all leaf counts up to the bound and all spent-subsets x added-counts for small accumulators (batch 0); see counters shape_*"
 		},
